@@ -17,7 +17,7 @@ import (
 
 func init() {
 	// semadb logs through zerolog's global logger; keep the harness output readable
-	zerolog.SetGlobalLevel(zerolog.Disabled)
+	zerolog.SetGlobalLevel(zerolog.FatalLevel) // a fatal log call exits the process: its message must be visible
 	_ = io.Discard
 }
 
